@@ -126,6 +126,23 @@ func genC08(r *Rng) *Plan {
 	p.Steps = append(p.Steps, Step{Op: "flow_start", B: "b2", Name: "A", User: "alice@example.com", Host: host, Target: "/x"})
 	creds := []string{"good", "good-query-header", "good-form", "none", "id-only", "secret-only", "wrong-secret", "wrong-id", "empty", "secret-in-query", "case-header", "secret-prefix", "idp-creds"}
 	codes := []string{"genuine", "genuine", "none", "session-as-code", "authcookie-as-code", "foreign", "forged", "flip", "truncate", "extend", "reencode", "random"}
+	if r.Chance(1, 4) {
+		// a caller without (complete) credentials and the genuine proxy at the same endpoint at the same time, one of
+		// them held somewhere inside the authenticator's request handling: each is judged on what it presented
+		p.Gen += "+twin"
+		for k, m := 0, r.Range(2, 5); k < m; k++ {
+			ep := r.Pick("redeem", "refresh", "profile", "validate")
+			bad := Step{Op: "backchannel", B: "attacker", Endpoint: ep, Sub: r.Pick("wrong-id", "wrong-id", "none", "id-only", "wrong-secret", "secret-only"), Name: "A", Str: "genuine"}
+			good := Step{Op: "backchannel", B: "proxy2", Endpoint: ep, Sub: "good", Name: "A", Str: "genuine"}
+			first, second := bad, good
+			if r.Chance(1, 3) {
+				first, second = good, bad
+			}
+			first.Pause = &PauseSpec{Ord: r.Pick0(0, 0, 0, 1), K: r.Range(1, 60), Dur: 100 * time.Millisecond}
+			first.Twin = &second
+			p.Steps = append(p.Steps, first)
+		}
+	}
 	n := r.Steps(4, 15)
 	for i := 0; i < n; i++ {
 		ep := r.Pick("redeem", "refresh", "profile", "validate")
